@@ -191,6 +191,7 @@ theorem handleFaucetTx_ok {env : Env} {s s1 : State} {tx : Tx} (h : handleFaucet
 
 /-- the per-transaction step of `create_next_state` -/
 def cnsStep (env : Env) (tip906 : Bool) (st : State) (tx : Tx) : Outcome State :=
+  if st.txs.any (fun t => t.hash = tx.hash) then .reject .duplicateTx else
   (if tx.kind = .faucet then handleFaucetTx env st tx else .ok st).bind fun st1 =>
   (Outcome.foldlM' (fun (coins : CoinMap) id => coins.removeCoin id tip906) st1.coins tx.inputs).bind fun coins2 =>
   (tx.baseFee st1.feeMultiplier).bind fun minFee =>
@@ -245,6 +246,8 @@ theorem cnsStep_ok {env : Env} {t : Bool} {st st' : State} {tx : Tx} (h : cnsSte
     ∃ st1, (if tx.kind = .faucet then handleFaucetTx env st tx else .ok st) = .ok st1 ∧
       st'.network = st1.network ∧ ∀ k, k ∉ tx.inputs → st'.coins.getCoin k = st1.coins.getCoin k := by
   unfold cnsStep at h
+  split at h
+  · cases h
   rw [Outcome.bind_eq_ok] at h
   obtain ⟨st1, h1, h⟩ := h
   rw [Outcome.bind_eq_ok] at h
@@ -333,6 +336,79 @@ theorem cnsFold_marker {env : Env} {t : Bool} {st r : State} {l : List Tx} {tx :
   have hp := (cnsStep_faucet h2 hf).2.2 hng (hsep tx (by simp))
   rw [cnsFold_keep h3 (fun t ht => hsep t (by simp [ht])) hp]
   exact hp
+
+/-! ### the `DuplicateTx` guard of the step: a block holds a hash at most once -/
+
+theorem handleFaucetTx_txs {env : Env} {s s1 : State} {tx : Tx} (h : handleFaucetTx env s tx = .ok s1) :
+    s1.txs = s.txs := by
+  unfold handleFaucetTx at h
+  simp only at h
+  split at h
+  · cases h
+  · split at h
+    · cases h
+    · split at h <;> (cases h; rfl)
+
+/-- `insertTx` never loses a hash (no sortedness needed) -/
+theorem hash_mem_insertTx {l : List Tx} (tx : Tx) {h : Hash} (hm : ∃ t ∈ l, t.hash = h) :
+    ∃ t ∈ State.insertTx l tx, t.hash = h := by
+  induction l with
+  | nil => obtain ⟨t, ht, _⟩ := hm; cases ht
+  | cons a rest ih =>
+    obtain ⟨t, ht, e⟩ := hm
+    unfold State.insertTx
+    split
+    · next ha =>
+      rcases List.mem_cons.mp ht with rfl | ht
+      · exact ⟨tx, List.mem_cons_self, ha.symm.trans e⟩
+      · exact ⟨t, List.mem_cons_of_mem _ ht, e⟩
+    · split
+      · exact ⟨t, List.mem_cons_of_mem _ ht, e⟩
+      · rcases List.mem_cons.mp ht with rfl | ht
+        · exact ⟨t, List.mem_cons_self, e⟩
+        · obtain ⟨t', ht', e'⟩ := ih ⟨t, ht, e⟩
+          exact ⟨t', List.mem_cons_of_mem _ ht', e'⟩
+
+/-- a successful step: the hash was not in the list, and no hash is lost -/
+theorem cnsStep_txs {env : Env} {t : Bool} {st st' : State} {tx : Tx} (h : cnsStep env t st tx = .ok st') :
+    (∀ u ∈ st.txs, u.hash ≠ tx.hash) ∧ ∀ h, (∃ u ∈ st.txs, u.hash = h) → ∃ u ∈ st'.txs, u.hash = h := by
+  unfold cnsStep at h
+  split at h
+  · cases h
+  next hnd =>
+  rw [Outcome.bind_eq_ok] at h
+  obtain ⟨st1, h1, h⟩ := h
+  rw [Outcome.bind_eq_ok] at h
+  obtain ⟨coins2, _, h⟩ := h
+  rw [Outcome.bind_eq_ok] at h
+  obtain ⟨minFee, _, h⟩ := h
+  have e1 : st1.txs = st.txs := by
+    split at h1
+    · exact handleFaucetTx_txs h1
+    · cases h1; rfl
+  refine ⟨fun u hu e => hnd (List.any_eq_true.mpr ⟨u, hu, by simpa using e⟩), ?_⟩
+  split at h
+  · cases h
+  · cases h
+    intro hh hm
+    simp only [e1]
+    exact hash_mem_insertTx tx hm
+
+theorem cnsFold_txs {env : Env} {t : Bool} {st r : State} {l : List Tx}
+    (h : Outcome.foldlM' (cnsStep env t) st l = .ok r) {hh : Hash} (hm : ∃ u ∈ st.txs, u.hash = hh) :
+    ∃ u ∈ r.txs, u.hash = hh :=
+  Outcome.foldlM'_inv (fun b => ∃ u ∈ b.txs, u.hash = hh) h hm
+    (fun _ _ _ _ hb hs => (cnsStep_txs hs).2 hh hb)
+
+/-- a transaction whose hash is in the transaction list at the start of the fold makes it fail -/
+theorem cnsFold_dupHash {env : Env} {t : Bool} {st r : State} {l : List Tx} {tx : Tx}
+    (htx : tx ∈ l) (hm : ∃ u ∈ st.txs, u.hash = tx.hash) :
+    Outcome.foldlM' (cnsStep env t) st l ≠ .ok r := by
+  intro h
+  obtain ⟨l₁, l₂, rfl⟩ := List.append_of_mem htx
+  obtain ⟨mid, mid', h1, h2, _⟩ := cnsFold_split h
+  obtain ⟨u, hu, e⟩ := cnsFold_txs h1 hm
+  exact (cnsStep_txs h2).1 u hu e
 
 /-! ### `applyBatch` -/
 
